@@ -14,6 +14,7 @@ bootstrap.ensure()
 
 ID = "C03"
 LEVEL = "exploration"
+TECHNIQUE = "runtime monitoring: differential processing of all preferred-engine option combinations + M-commute / M-backtrack hooks"
 RULE = (
     "seeded random base trees spanning a SQL engine and two iteration engines (transfers, materializations, locked "
     "leaves, chains, joins in SQL); on each, one random valid operation (calculation, projection, selection, "
